@@ -28,6 +28,10 @@ def expectedShapes : List (String × String) := [
   ("setObject.exportToArrayOrSlice", "func (so *setObject) exportToArrayOrSlice(dst reflect.Value, typ reflect.Type, ctx *objectExportCtx) error { l := so.m.size if typ.Kind() == reflect.Array { if dst.Len() != l { return fmt.Errorf(\"cannot convert a Set into an array, lengths mismatch: have %d, need %d)\", l, dst.Len()) } } else { dst.Set(reflect.MakeSlice(typ, l, l)) } ctx.putTyped(so.val, typ, dst.Interface()) iter := so.m.newIter() r := so.val.runtime for i := 0; i < l; i++ { entry := iter.next() if entry == nil { break } err := r.toReflectValue(entry.key, dst.Index(i), ctx) if err != nil { return err } } return nil }"),
   ("mapIterObject.next", "func (o *mapIterObject) next() Value { if o.iter == nil { return o.val.runtime.createIterResultObject(_undefined, true) } entry := o.iter.next() if entry == nil { o.iter = nil return o.val.runtime.createIterResultObject(_undefined, true) } var result Value switch o.kind { case iterationKindKey: result = entry.key case iterationKindValue: result = entry.value default: result = o.val.runtime.newArrayValues([]Value{entry.key, entry.value}) } return o.val.runtime.createIterResultObject(result, false) }"),
   ("setIterObject.next", "func (o *setIterObject) next() Value { if o.iter == nil { return o.val.runtime.createIterResultObject(_undefined, true) } entry := o.iter.next() if entry == nil { o.iter = nil return o.val.runtime.createIterResultObject(_undefined, true) } var result Value switch o.kind { case iterationKindValue: result = entry.key default: result = o.val.runtime.newArrayValues([]Value{entry.key, entry.key}) } return o.val.runtime.createIterResultObject(result, false) }"),
+  ("enumerableIter.next", "func (i *enumerableIter) next() (propIterItem, iterNextFunc) { for { var item propIterItem item, i.wrapped = i.wrapped() if i.wrapped == nil { return item, nil } if item.enumerable == _ENUM_FALSE { continue } if item.enumerable == _ENUM_UNKNOWN { var prop Value if item.value == nil { prop = i.o.getOwnProp(item.name) } else { prop = item.value } if prop == nil { continue } if prop, ok := prop.(*valueProperty); ok { if !prop.enumerable { continue } } } return item, i.next } }"),
+  ("enumPropertiesIter.next", "func (i *enumPropertiesIter) next() (propIterItem, iterNextFunc) { for i.wrapped != nil { item, next := i.wrapped() i.wrapped = next if next == nil { break } if item.value == nil { item.value = i.o.get(item.name, nil) if item.value == nil { continue } } else { if prop, ok := item.value.(*valueProperty); ok { item.value = prop.get(i.o) } } return item, i.next } return propIterItem{}, nil }"),
+  (".iterateEnumerableProperties", "func iterateEnumerableProperties(o *Object) iterNextFunc { return (&enumPropertiesIter{ o: o, wrapped: (&enumerableIter{ o: o, wrapped: o.self.iterateKeys(), }).next, }).next }"),
+  ("valueProperty.get", "func (p *valueProperty) get(this Value) Value { if p.getterFunc == nil { if p.value != nil { return p.value } return _undefined } call, _ := p.getterFunc.self.assertCallable() return call(FunctionCall{ This: this, }) }"),
   ("valueBigInt.hash", "func (v *valueBigInt) hash(hash *maphash.Hash) uint64 { var sign byte if (*big.Int)(v).Sign() < 0 { sign = 0x01 } else { sign = 0x00 } _ = hash.WriteByte(sign) _, _ = hash.Write((*big.Int)(v).Bytes()) h := hash.Sum64() hash.Reset() return h }"),
   ("valueBigInt.SameAs", "func (v *valueBigInt) SameAs(other Value) bool { if o, ok := other.(*valueBigInt); ok { return (*big.Int)(v).Cmp((*big.Int)(o)) == 0 } return false }"),
   ("Symbol.hash", "func (s *Symbol) hash(*maphash.Hash) uint64 { return uint64(uintptr(unsafe.Pointer(s))) }"),
